@@ -149,3 +149,15 @@ Fixpoint mism (sigs : list (string * fsig)) (i : Z) (l : list c02case) : list Z 
   end.
 
 Definition c02_mismatches (sigs : list (string * fsig)) (l : list c02case) : list Z := mism sigs 0 l.
+
+(* the pass order and iteration bounds read from optimizer.go by the harness (go/parser), against the model's *)
+Fixpoint strs_eqb (a b : list string) : bool :=
+  match a, b with [], [] => true | x :: r, y :: t => String.eqb x y && strs_eqb r t | _, _ => false end.
+Fixpoint zs_eqb (a b : list Z) : bool :=
+  match a, b with [], [] => true | x :: r, y :: t => (x =? y) && zs_eqb r t | _, _ => false end.
+
+Definition model_passes : list string := ["inArray"; "fold"; "constExpr"; "inRange"; "constRange"]%string.
+Definition model_bounds : list Z := [1; Z.of_nat fold_bound; Z.of_nat const_expr_bound; 1; 1].
+
+Definition c02_mismatches_p (passes : list string) (bounds : list Z) (sigs : list (string * fsig)) (l : list c02case) : list Z :=
+  (if strs_eqb passes model_passes && zs_eqb bounds model_bounds then [] else [8 * 1000000 + 7]) ++ c02_mismatches sigs l.
